@@ -92,6 +92,78 @@ def check_program(ctx, sf, spec, fock=True, cutoff=9):
                              f"{cutoff} and {d2:.3g} at cutoff {cutoff + 6} (trace deficits {loss:.2g}, {loss2:.2g})", rp)
 
 
+def check_pure_vs_mixed(ctx, sf, spec, cutoff=7):
+    """the Fock simulator in its pure and in its mixed representation must give the same density matrix
+    (same truncated matrices on both sides: agreement to float precision, no truncation budget)"""
+    rp = dict(kind="pure-vs-mixed", spec=spec, cutoff=cutoff)
+    ctx.oracle_cases += 1
+    try:
+        sp, _ = sim.run_spec(sf, spec, "fock", cutoff_dim=cutoff, pure=True)
+        sm, _ = sim.run_spec(sf, spec, "fock", cutoff_dim=cutoff, pure=False)
+    except Exception as e:  # noqa: BLE001
+        ctx.fail(f"fock-raises:{type(e).__name__}", f"fock back end raised {type(e).__name__}: {e}", rp)
+        return
+    d = float(np.max(np.abs(sim.dm_of(sp) - sim.dm_of(sm))))
+    if d > 1e-9:
+        ctx.fail("fock-pure-vs-mixed", f"pure and mixed representations of the Fock simulator differ by {d:.3g}", rp)
+
+
+def rand_fock_program(rng, n):
+    """Gaussian and non-Gaussian gates, Fock preparations, loss — anything the fock back end accepts"""
+    ops = []
+    for m in range(n):
+        if rng.random() < 0.4:
+            ops.append(dict(cls="Fock", regs=[m], pars=[rng.choice([0, 1, 2])]))
+    for _ in range(rng.randint(2, 7)):
+        u = rng.random()
+        if u < 0.3:
+            cls = rng.choice(["Kgate", "Vgate", "CKgate"] if n >= 2 else ["Kgate", "Vgate"])
+            regs = rng.sample(range(n), 2) if cls == "CKgate" else [rng.randrange(n)]
+            op = dict(cls=cls, regs=regs, pars=[round(rng.uniform(-0.5, 0.5), 3)])
+            if rng.random() < 0.3:
+                op["dagger"] = True
+            ops.append(op)
+        else:
+            ops.append(sim.rand_gaussian_op(rng, n, thermal_loss=False))
+    return dict(n=n, ops=ops)
+
+
+def check_bosonic_vs_fock(ctx, sf, spec, cutoff=10):
+    """non-Gaussian bosonic preparations (first operation of a mode) followed by Gaussian operations: the moments of
+    the bosonic linear combination must match the Fock simulation up to truncation"""
+    rp = dict(kind="bosonic-vs-fock", spec=spec)
+    ctx.oracle_cases += 1
+    try:
+        sb, _ = sim.run_spec(sf, spec, "bosonic")
+        mb = sim.moments_bosonic(sb, sf.hbar)
+    except NotImplementedError:
+        return
+    except Exception as e:  # noqa: BLE001
+        ctx.fail(f"bosonic-raises:{type(e).__name__}", f"bosonic back end raised {type(e).__name__}: {e}", rp)
+        return
+
+    def delta(cut):
+        st, _ = sim.run_spec(sf, spec, "fock", cutoff_dim=cut, pure=True)
+        a, N, M, tr = sim.moments_fock(st)
+        return sim.moment_dist(mb, (a, N, M)), 1 - tr
+    d, loss = delta(cutoff)
+    if d > 5 * cutoff * loss + 1e-6:
+        d2, loss2 = delta(cutoff + 6)
+        if d2 > max(1e-5, d / 2) and d2 > 5 * (cutoff + 6) * loss2 + 1e-6:
+            ctx.fail("bosonic-vs-fock", f"bosonic and fock back ends differ by {d:.3g} (cutoff {cutoff}) / {d2:.3g} "
+                     f"(cutoff {cutoff + 6})", rp)
+
+
+def rand_bosonic_nongaussian(rng, n):
+    ops = []
+    for m in range(n):
+        if rng.random() < 0.6:   # cat states are exact in the bosonic representation (its Fock states are approximations)
+            ops.append(dict(cls="Catstate", regs=[m], pars=[round(rng.uniform(0.4, 0.9), 2), sim.angle(rng), rng.choice([0, 1])]))
+    for _ in range(rng.randint(1, 5)):
+        ops.append(sim.rand_gaussian_op(rng, n, allow_prep=False, thermal_loss=False))
+    return dict(n=n, ops=ops)
+
+
 def culprit(sf, spec, backend, pure=True):
     """shrink: shortest prefix that already disagrees; returns 'Class@regs' of its last op (signature material)"""
     try:
@@ -131,6 +203,7 @@ def corpus():
 def run(ctx, sf):
     sf.hbar = 2
     simcorr.run_fock_corr(ctx, ctx.n(330, 3300))
+    simcorr.run_bos_corr(ctx, ctx.n(100, 1000))
     simcorr.run_gauss_corr(ctx, ctx.n(150, 1500))
     for spec in corpus():
         ctx.count("corpus", spec, nontrivial(spec))
@@ -147,6 +220,14 @@ def run(ctx, sf):
         for o in spec["ops"]:
             ctx.tally("op:" + o["cls"] + (".H" if o.get("dagger") else ""))
         check_program(ctx, sf, spec, fock=fock and n <= 3)
+    for it in range(ctx.n(30, 300)):
+        spec = rand_fock_program(rng, rng.choice([1, 2, 2, 3]))
+        ctx.count("fock-pure-vs-mixed", spec, nontrivial(spec) or spec["n"] >= 2)
+        check_pure_vs_mixed(ctx, sf, spec)
+    for it in range(ctx.n(8, 80)):
+        spec = rand_bosonic_nongaussian(rng, rng.choice([1, 2]))
+        ctx.count("bosonic-vs-fock", spec, spec["n"] >= 2)
+        check_bosonic_vs_fock(ctx, sf, spec)
     # other hbar conventions / cutoffs (configuration quantifier)
     for hbar in ((1.0, 0.7) if ctx.tier == "thorough" else (1.0,)):
         sf.hbar = hbar
@@ -165,6 +246,11 @@ def replay(ctx, rp):
     import strawberryfields as sf
     n0 = len(ctx.failures)
     sf.hbar = rp.get("hbar", 2)
-    check_program(ctx, sf, rp["spec"])
+    if rp.get("kind") == "pure-vs-mixed":
+        check_pure_vs_mixed(ctx, sf, rp["spec"], rp.get("cutoff", 7))
+    elif rp.get("kind") == "bosonic-vs-fock":
+        check_bosonic_vs_fock(ctx, sf, rp["spec"])
+    else:
+        check_program(ctx, sf, rp["spec"])
     sf.hbar = 2
     return len(ctx.failures) > n0
